@@ -13,6 +13,7 @@ import (
 	"context"
 	"errors"
 	"fmt"
+	"io"
 	"math/rand"
 	"reflect"
 	"runtime"
@@ -31,6 +32,7 @@ type joeTrace struct {
 	jitter int        // 0..100 probability of yielding at a hook
 
 	doneToSub map[uintptr]int
+	gotDone   map[int]error // what Subscribe received from Joe (hooks sub.gotDone / sub.gotDone2), per subscriber
 	ctxToShut map[any]int
 	msgToPub  map[*sse.Message]int
 
@@ -150,8 +152,14 @@ func (w *joeWriter) call(kind string, m *sse.Message) error {
 	}
 	return nil
 }
-func (w *joeWriter) Send(m *sse.Message) error { return w.call("s", m) }
-func (w *joeWriter) Flush() error              { return w.call("f", nil) }
+
+// Send does what the library's own Session does with the message: it writes it out
+func (w *joeWriter) Send(m *sse.Message) error {
+	err := w.call("s", m)
+	_, _ = m.WriteTo(io.Discard)
+	return err
+}
+func (w *joeWriter) Flush() error { return w.call("f", nil) }
 
 // joeReplayer wraps an optional real replayer, records what it returns, and injects faults.
 type joeReplayer struct {
@@ -532,6 +540,11 @@ func runJoe(args []string) string {
 				t.add(fmt.Sprintf("sk%d", i))
 			default:
 				t.add(fmt.Sprintf("sr%d", i))
+				if t.gotDone == nil {
+					t.gotDone = map[int]error{}
+				}
+				e, _ := b.(error)
+				t.gotDone[i] = e
 			}
 			t.mu.Unlock()
 		case "loop.sub":
@@ -715,6 +728,10 @@ func runJoe(args []string) string {
 			t.mu.Lock()
 			w.returned = true
 			t.add(fmt.Sprintf("sR%d:%s", i, errName(err, 0)))
+			if e, ok := t.gotDone[i]; ok && errName(e, 0) != errName(err, 0) {
+				// no race to excuse it: Subscribe itself took Joe's verdict off the channel and returned something else
+				t.fact(fmt.Sprintf("SUBSCRIBE-DROPPED-JOES-VERDICT(sub%d;%s;%s)", i, errName(e, 0), errName(err, 0)))
+			}
 			t.mu.Unlock()
 		}(i, s)
 	}
